@@ -35,6 +35,11 @@ def plan(tier, seed):
         specs.append({"klass": "shape", "i": k, "shape": sh, "n_inter": n})
     for k, f in enumerate(classes.corpus(env.REPO, big=(tier == "thorough"))):
         specs.append({"klass": "corpus", "i": k, "file": os.path.relpath(f, env.REPO), "soft_timeout": 400})
+    from . import c12
+
+    for k, h in enumerate(c12.HAND):
+        # removal of unused definitions changes the order in which the derivatives are emitted
+        specs.append({"klass": "remove_unused_order", "i": k, "text": h, "remove_unused": True})
     n = 1500 if tier == "quick" else 8000
     for k in range(n):
         specs.append({"klass": "random", "i": k, "fill": True, "remove_unused": k % 4 == 3})
